@@ -41,7 +41,7 @@ func prng(r PRng) string { return fmt.Sprintf("%d:%d-%d:%d", r.SL, r.SC, r.EL, r
 func c09(c *Ctx) {
 	c.Rep.TieObs = []string{"O-proxy: downstream request parameters and the reply of every overridden position-based method"}
 	c.Rep.Rule = "for each of 11 position-based methods (+ CodeLens, CodeAction) x every character position of two open template documents (mapped and unmapped) x seven scripted downstream answers (range inside mapped text, across two mapped segments, from mapped into unmapped text, in generated boilerplate, in another generated file, at the very first character of a generated file's template (0:0), in a plain .go file); oracle from the real Compose tables: downstream is asked about the generated file at map(position); unmapped position => empty answer, no error, downstream not consulted; answers in generated files come back in template coordinates under the template URI, plain .go locations unchanged; distinct = distinct (method, document, position, answer shape)"
-	docA := "package x\n\n@goht A(s string, n int) {\n\t%p= s\n\t%i= %d n\n\t%a{href: #{s}, n ? #{n > 1}} t #{s} u\n\t- if n > 2\n\t\t= @render B(s)\n}\n"
+	docA := "package x\n\n@goht A(s string,\n\tn int) {\n\t%p= s\n\t%i= %d n\n\t%a{href: #{s}, n ? #{n > 1}} t #{s} u\n\t- if n > 2\n\t\t= @render B(s)\n}\n"
 	docB := "package x\n\n@goht B(s string) {\n\t.c[s]= s\n}\n"
 	// a template without a package clause whose first line is Go code: its very first character (0:0) is mapped text
 	docC := "var greeting = \"hi\"\n\n@goht C() {\n\t%p= greeting\n}\n"
